@@ -192,6 +192,27 @@ def install(rec):
                       detail={"err": e2, "where": list(where)}, sig=("expm", d))
     attach.install(t1.LocalHam1D, "__init__", attach.monitored(rec, "LocalHam1D.__init__", pre_lh, post_lh, fam="lh"))
 
+    # every get_gate_expm call: the exponential of the *current* term
+    def pre_ge(self, where, x):
+        if rec.depth("ge") > 0:
+            return None
+        return {}
+
+    def post_ge(s, out, self, where, x):
+        try:
+            h = np.asarray(to_numpy(self.terms[tuple(sorted(where))]), dtype=complex)
+            U = np.asarray(to_numpy(out), dtype=complex)
+            if h.ndim != 2 or U.shape != h.shape or h.shape[0] > 81:
+                return
+            ref = rl.expm(complex(x) * h)
+        except Exception:
+            return
+        e2 = float(np.abs(U - ref).max())
+        rec.check("localham", "expm", e2 <= 1e-8 * max(1.0, float(np.abs(ref).max())),
+                  mech="localham:get_gate_expm_not_exponential_of_current_term",
+                  detail={"err": e2, "where": list(where), "x": repr(x)}, sig=("expm_call", h.shape[0]))
+    attach.install(tg.LocalHamGen, "get_gate_expm", attach.monitored(rec, "LocalHamGen.get_gate_expm", pre_ge, post_ge, fam="ge"))
+
     # ---- TEBD --------------------------------------------------------------
     def pre_up(self, T, dt=None, tol=None, order=4, progbar=None):
         if rec.depth("tebd") > 0:
@@ -324,6 +345,19 @@ def wl_localham(rng, rec, tier):
     cyclic = bool(rng.random() < 0.4) and L > 2
     d = int(gen.choice(rng, [2, 2, 3])) if L <= 4 else 2
     ham, form = rand_ham(rng, L, cyclic, d)
+    if ham is not gen.REJECTED:
+        import gc
+        xs = [-0.37j, -0.1]
+        for where in list(ham.terms):
+            gen.attempt(ham.get_gate_expm, where, gen.choice(rng, xs))
+        if rng.random() < 0.6:
+            # replace the term arrays (the old ones are freed): cached results
+            # must not survive
+            f = float(gen.choice(rng, [2.0, 0.5, -1.0]))
+            gen.attempt(ham.apply_to_arrays, lambda a: f * a)
+            gc.collect()
+            for where in list(ham.terms):
+                gen.attempt(ham.get_gate_expm, where, gen.choice(rng, xs))
     return {"L": L, "cyclic": cyclic, "form": form, "rejected": ham is gen.REJECTED}
 
 
